@@ -162,6 +162,9 @@ CATALOGUE = [
     ("rollaxis", "keeps", lambda c: list(c.a.dims), lambda c: c.a.rollaxis(c.a.ndim - 1)),
     ("newaxis", "keeps", lambda c: list(c.a.dims), lambda c: c.a.newaxis("new", pos=c.k % (c.a.ndim + 1))),
     ("newaxis values", "keeps", lambda c: list(c.a.dims), lambda c: c.a.newaxis("new", values=c.arg(np.array([1, 2])), pos=c.k % (c.a.ndim + 1))),
+    ("newaxis values Axis of another array", "keeps", lambda c: list(c.a.dims),
+     lambda c: c.a.newaxis("new", values=c.arg(c.b.axes[c.k % c.b.ndim]), pos=c.k % (c.a.ndim + 1))),
+    ("repeat Axis of another array", "keeps", None, lambda c: c.a.take([c.lab(0)], axis=0).repeat(c.arg(c.b.axes[c.k % c.b.ndim]), axis=0)),
     ("squeeze", "keeps", None, lambda c: c.a.take([c.lab(0)], axis=0).squeeze()),
     ("repeat", "keeps", None, lambda c: c.a.take([c.lab(0)], axis=0).repeat(c.arg(np.array([7, 8])), axis=0)),
     ("broadcast", "keeps", lambda c: list(c.a.dims), lambda c: c.a.broadcast(c.a.newaxis("new", values=np.array([1, 2])))),
@@ -210,10 +213,13 @@ CATALOGUE = [
     ("align one input sort", None, None, lambda c: c.da.align([c.a], sort=True)),
     ("align three", None, None, lambda c: c.da.align(c.arg([c.a, c.b, c.a.ix[0]]), sort=True)),
     ("stack", "drops", None, lambda c: c.da.stack([c.a, c.a], axis="s")),
+    ("stack one input", "drops", None, lambda c: c.da.stack([c.a], axis="s")),
+    ("stack one-key dict", "drops", None, lambda c: c.da.stack({"only": c.a}, axis="s")),
     ("stack align", "drops", None, lambda c: c.da.stack([c.a, c.a.sort_axis(0)], axis="s", align=True, sort=True)),
     ("stack dict keys", "drops", None, lambda c: c.da.stack(c.arg({"u": c.a, "v": c.a}), axis="s")),
     ("stack transposed", "drops", None, lambda c: c.da.stack([c.a, c.a.transpose(*c.a.dims[::-1])], axis="s")),
     ("concatenate", "drops", None, lambda c: c.da.concatenate([c.a, c.a], axis=c.axk())),
+    ("concatenate one input", "drops", None, lambda c: c.da.concatenate([c.a], axis=c.axk())),
     ("concatenate align", "drops", None, lambda c: c.da.concatenate([c.a, c.a.sort_axis(c.a.ndim - 1)], axis=0, align=True, sort=True)),
     ("array()", None, None, lambda c: c.da.array([c.a, c.b], axis="s")),
     # ---- serialisation, conversion, copies ----------------------------------------------------------------------
